@@ -11,7 +11,7 @@ tests = {}   # (dir) -> {check: exit}
 verif = {}   # (dir) -> (a,b,c)
 
 def norm(path):
-    m = re.search(r'seed(?:ed)?[-/](C\d+)/(?:OUT/)?(\d+)', path)
+    m = re.search(r'seed(?:ed)?[-/](C\d+)/(?:OUT/)?(\d+)', path) or re.search(r'\b(C\d+)/(\d+)\b', path)
     return f'{m.group(1)}/{m.group(2)}' if m else None
 
 for log in ['/var/tmp/mut/batch1.log', '/var/tmp/mut/batch2.log', '/var/tmp/mut/queue.log']:
